@@ -39,6 +39,39 @@ static struct proto protos[] = {
 	{ NULL, NULL, NULL },
 };
 
+// what each send aio submitted (header + body), to check that a FAILED send hands back exactly that
+static bool     sock_raw; // the socket under test was opened in raw mode
+static uint8_t *sub_copy[16];
+static size_t   sub_hlen[16], sub_blen[16];
+
+static void
+sub_remember(int a, nng_msg *m)
+{
+	if (a < 0 || a >= 16) {
+		return;
+	}
+	free(sub_copy[a]);
+	sub_hlen[a] = nng_msg_header_len(m);
+	sub_blen[a] = nng_msg_len(m);
+	sub_copy[a] = malloc(sub_hlen[a] + sub_blen[a] + 1);
+	memcpy(sub_copy[a], nng_msg_header(m), sub_hlen[a]);
+	memcpy(sub_copy[a] + sub_hlen[a], nng_msg_body(m), sub_blen[a]);
+}
+
+static void
+sub_check_back(int a, nng_msg *m)
+{
+	if (a < 0 || a >= 16 || sub_copy[a] == NULL) {
+		return;
+	}
+	// the body always; the header only on a raw socket (there it is the caller's data; a cooked socket writes
+	// its own protocol header into the message as soon as the send is submitted)
+	bool hdr_bad = sock_raw && (nng_msg_header_len(m) != sub_hlen[a] || memcmp(nng_msg_header(m), sub_copy[a], sub_hlen[a]) != 0);
+	if (hdr_bad || nng_msg_len(m) != sub_blen[a] || memcmp(nng_msg_body(m), sub_copy[a] + sub_hlen[a], sub_blen[a]) != 0) {
+		ev_add("ALTERED %d hdr %zu->%zu body %zu->%zu", a, sub_hlen[a], nng_msg_header_len(m), sub_blen[a], nng_msg_len(m));
+	}
+}
+
 static void
 aio_cb(void *arg)
 {
@@ -57,6 +90,7 @@ aio_cb(void *arg)
 		if (aio_kind[i] == 1 && rv != 0 && m != NULL) {
 			// failed send: the message is still ours
 			ev_add("done %d %d msgback", i, rv);
+			sub_check_back(i, m);
 			nng_msg_free(m);
 			nng_aio_set_msg(a, NULL);
 		} else if (aio_kind[i] == 1 && rv == 0 && m != NULL) {
@@ -306,6 +340,7 @@ main(void)
 				}
 			}
 			sock_open = rv == 0;
+			sock_raw  = (vn >= 3 && strcmp(vw[2], "raw") == 0);
 			poll_have = false;
 			if (rv == 0) {
 				rv = nng_listen(sock, "gopher://sut", NULL, 0);
@@ -389,6 +424,7 @@ main(void)
 			}
 			free(h);
 			free(b);
+			sub_remember(a, m);
 			if (strcmp(vw[5], "nb") == 0) {
 				unsigned long j0, j1, ms0, ms1;
 				int           rv;
@@ -402,8 +438,9 @@ main(void)
 				sim_jump_slack(0);
 				sim_jumps(&j1, &ms1);
 				if (rv != 0) {
-					nng_msg_free(m);
 					ev_add("done %d %d msgback", a, rv);
+					sub_check_back(a, m);
+					nng_msg_free(m);
 				} else {
 					ev_add("done %d 0", a);
 				}
